@@ -245,3 +245,165 @@ proof fn prop_c04_no_year_boundary(a: AlternateTime, u1: int, u2: int)
         }
     }
 }
+
+// ---- C11 ------------------------------------------------------------------------------------------
+
+// two consecutive years are never both leap years; each of the three remaining patterns occurs
+proof fn lemma_year_patterns(y: int)
+    ensures
+        !(leap(y) && leap(y + 1)),
+        !leap(2001) && !leap(2002),
+        !leap(2003) && leap(2004),
+        leap(2004) && !leap(2005),
+{
+}
+
+proof fn lemma_jinfo_j1(n: int, t: int, i: JulianDayCheckInfos)
+    requires
+        1 <= n <= 365,
+        i.start_normal_year_offset == (n - 1) * 86400 + t,
+        i.start_leap_year_offset == i.start_normal_year_offset + (if n > 59 { 86400int } else { 0 }),
+    ensures
+        forall|y: int| #[trigger] rd_instant(RuleDay::Julian1WithoutLeap(Julian1WithoutLeap(n as u16)), t, y) == dby(y) * 86400 + (if leap(y) { i.start_leap_year_offset as int } else { i.start_normal_year_offset as int }),
+{
+}
+
+proof fn lemma_jinfo_j0(n: int, t: int, i: JulianDayCheckInfos)
+    requires
+        0 <= n <= 365,
+        i.start_normal_year_offset == n * 86400 + t,
+        i.start_leap_year_offset == i.start_normal_year_offset,
+    ensures
+        forall|y: int| #[trigger] rd_instant(RuleDay::Julian0WithLeap(Julian0WithLeap(n as u16)), t, y) == dby(y) * 86400 + (if leap(y) { i.start_leap_year_offset as int } else { i.start_normal_year_offset as int }),
+{
+}
+
+// for two Julian-notation days the three "for all years" relations reduce to the year classes
+proof fn lemma_jj_stable(d1: RuleDay, t1: int, i1: JulianDayCheckInfos, d2: RuleDay, t2: int, i2: JulianDayCheckInfos)
+    requires
+        jinfo_of(i1, d1, t1),
+        jinfo_of(i2, d2, t2),
+    ensures
+        pair_stable(d1, t1, d2, t2) == jj_stable(i1, i2),
+{
+    hide(rule_daynum);
+    lemma_jj_rel_same(d1, t1, i1, d2, t2, i2);
+    lemma_jj_rel_same(d2, t2, i2, d1, t1, i1);
+    lemma_jj_rel_next(d2, t2, i2, d1, t1, i1);
+    lemma_jj_rel_next(d1, t1, i1, d2, t2, i2);
+}
+
+proof fn lemma_jj_rel_same(d1: RuleDay, t1: int, i1: JulianDayCheckInfos, d2: RuleDay, t2: int, i2: JulianDayCheckInfos)
+    requires
+        jinfo_of(i1, d1, t1),
+        jinfo_of(i2, d2, t2),
+    ensures
+        (forall|y: int| rd_instant(d1, t1, y) <= #[trigger] rd_instant(d2, t2, y)) == jj_le_same(i1, i2),
+{
+    hide(rule_daynum);
+    hide(dby);
+    lemma_year_patterns(0);
+    if jj_le_same(i1, i2) {
+        assert forall|y: int| rd_instant(d1, t1, y) <= #[trigger] rd_instant(d2, t2, y) by {
+            assert(rd_instant(d1, t1, y) == dby(y) * 86400 + (if leap(y) { i1.start_leap_year_offset as int } else { i1.start_normal_year_offset as int }));
+        }
+    }
+    if forall|y: int| rd_instant(d1, t1, y) <= #[trigger] rd_instant(d2, t2, y) {
+        assert(rd_instant(d1, t1, 2001) <= rd_instant(d2, t2, 2001));
+        assert(rd_instant(d1, t1, 2004) <= rd_instant(d2, t2, 2004));
+    }
+}
+
+// a(y) vs b(y + 1)
+proof fn lemma_jj_rel_next(da: RuleDay, ta: int, ia: JulianDayCheckInfos, db: RuleDay, tb: int, ib: JulianDayCheckInfos)
+    requires
+        jinfo_of(ia, da, ta),
+        jinfo_of(ib, db, tb),
+    ensures
+        (forall|y: int| #[trigger] rd_instant(da, ta, y) <= rd_instant(db, tb, y + 1)) == jj_le_next(ia, ib),
+        (forall|y: int| rd_instant(db, tb, y + 1) <= #[trigger] rd_instant(da, ta, y)) == jj_ge_next(ia, ib),
+{
+    hide(rule_daynum);
+    hide(dby);
+    lemma_year_patterns(0);
+    assert forall|y: int| #[trigger] dby(y + 1) == dby(y) + (if leap(y) { 366int } else { 365 }) by {
+        lemma_dby_step(y);
+    }
+    if jj_le_next(ia, ib) {
+        assert forall|y: int| #[trigger] rd_instant(da, ta, y) <= rd_instant(db, tb, y + 1) by {
+            lemma_year_patterns(y);
+            assert(rd_instant(db, tb, y + 1) == dby(y + 1) * 86400 + (if leap(y + 1) { ib.start_leap_year_offset as int } else { ib.start_normal_year_offset as int }));
+        }
+    }
+    if jj_ge_next(ia, ib) {
+        assert forall|y: int| rd_instant(db, tb, y + 1) <= #[trigger] rd_instant(da, ta, y) by {
+            lemma_year_patterns(y);
+            assert(rd_instant(db, tb, y + 1) == dby(y + 1) * 86400 + (if leap(y + 1) { ib.start_leap_year_offset as int } else { ib.start_normal_year_offset as int }));
+        }
+    }
+    if forall|y: int| #[trigger] rd_instant(da, ta, y) <= rd_instant(db, tb, y + 1) {
+        assert(rd_instant(da, ta, 2001) <= rd_instant(db, tb, 2001int + 1));
+        assert(rd_instant(da, ta, 2003) <= rd_instant(db, tb, 2003int + 1));
+        assert(rd_instant(da, ta, 2004) <= rd_instant(db, tb, 2004int + 1));
+        assert(rd_instant(db, tb, 2002) == dby(2002) * 86400 + ib.start_normal_year_offset);
+        assert(rd_instant(db, tb, 2004) == dby(2004) * 86400 + ib.start_leap_year_offset);
+        assert(rd_instant(db, tb, 2005) == dby(2005) * 86400 + ib.start_normal_year_offset);
+    }
+    if forall|y: int| rd_instant(db, tb, y + 1) <= #[trigger] rd_instant(da, ta, y) {
+        assert(rd_instant(db, tb, 2001int + 1) <= rd_instant(da, ta, 2001));
+        assert(rd_instant(db, tb, 2003int + 1) <= rd_instant(da, ta, 2003));
+        assert(rd_instant(db, tb, 2004int + 1) <= rd_instant(da, ta, 2004));
+        assert(rd_instant(db, tb, 2002) == dby(2002) * 86400 + ib.start_normal_year_offset);
+        assert(rd_instant(db, tb, 2004) == dby(2004) * 86400 + ib.start_leap_year_offset);
+        assert(rd_instant(db, tb, 2005) == dby(2005) * 86400 + ib.start_normal_year_offset);
+    }
+}
+
+// ASSUMED (not proved in this version; see DESIGN.md section 5, C11): the audited decision procedures for rule
+// pairs involving the Mm.w.d notation decide order stability.  Evidence for them: the exhaustive comparison of the
+// design phase (131 155 299 decisions against a 400-year evaluation, 0 mismatches) and the bounded C11 probe.
+#[verifier::external_body]
+proof fn axiom_mj_stable(m: MonthWeekDay, tm: int, im: MonthWeekDayCheckInfos, d: RuleDay, td: int, id: JulianDayCheckInfos)
+    requires
+        mwd_wf(m),
+        day_time_ok(tm),
+        day_time_ok(td),
+        mwinfo_of(im, m, tm),
+        jinfo_of(id, d, td),
+    ensures
+        pair_stable(RuleDay::MonthWeekDay(m), tm, d, td) == mj_decision(im, id),
+{
+}
+
+#[verifier::external_body]
+proof fn axiom_mm_stable(m1: MonthWeekDay, t1: int, m2: MonthWeekDay, t2: int)
+    requires
+        mwd_wf(m1),
+        mwd_wf(m2),
+        day_time_ok(t1),
+        day_time_ok(t2),
+    ensures
+        pair_stable(RuleDay::MonthWeekDay(m1), t1, RuleDay::MonthWeekDay(m2), t2) == mm_decision(m1, t1, m2, t2),
+{
+}
+
+// the three relations are symmetric in the roles of the two days
+proof fn lemma_pair_stable_sym(d1: RuleDay, t1: int, d2: RuleDay, t2: int)
+    ensures
+        pair_stable(d1, t1, d2, t2) == pair_stable(d2, t2, d1, t1),
+{
+}
+
+proof fn lemma_order_stable_is_pair(a: AlternateTime)
+    ensures
+        order_stable(a) == pair_stable(a.dst_start, a.dst_start_time - a.std.ut_offset, a.dst_end, a.dst_end_time - a.dst.ut_offset),
+{
+    let d1 = a.dst_start;
+    let t1 = a.dst_start_time - a.std.ut_offset;
+    let d2 = a.dst_end;
+    let t2 = a.dst_end_time - a.dst.ut_offset;
+    assert forall|y: int| alt_s(a, y) == #[trigger] rd_instant(d1, t1, y) by {}
+    assert forall|y: int| alt_e(a, y) == #[trigger] rd_instant(d2, t2, y) by {}
+    assert forall|y: int| #[trigger] alt_s(a, y) == rd_instant(d1, t1, y) by {}
+    assert forall|y: int| #[trigger] alt_e(a, y) == rd_instant(d2, t2, y) by {}
+}
